@@ -48,11 +48,12 @@ def step_behaviours(values, allow_fail=True, deterministic=False):
 def steps(values=None, *, allow_fail=True, sems=("least", "most"), allow_json_serdes=False, logs=False, deterministic=False):
     values = tagged_values() if values is None else values
     return st.builds(
-        lambda beh, sem, retry, y: {"op": "step", "beh": beh, "sem": sem, "retry": retry, "yields": y},
+        lambda beh, sem, retry, y, sl: {"op": "step", "beh": beh, "sem": sem, "retry": retry, "yields": y, **({"sleep": sl} if sl else {})},
         step_behaviours(values, allow_fail, deterministic),
         st.sampled_from(list(sems)),
         retry_specs() if allow_fail else st.just({"kind": "none"}),
         st.sampled_from([0, 0, 1, 2]),
+        st.sampled_from([0, 0, 0, 0.1, 0.2, 0.3]),
     )
 
 
@@ -158,13 +159,14 @@ def wfconds(max_polls=4, fail=False):
 
 def backend_cfgs():
     return st.builds(
-        lambda resp, page, first, sp, prune, lag: {"response": resp, "page_size": page, "first_page": first, "state_page": sp, "prune_children": prune, "timer_lag": lag},
+        lambda resp, page, first, sp, prune, lag, lat: {"response": resp, "page_size": page, "first_page": first, "state_page": sp, "prune_children": prune, "timer_lag": lag, "api_latency": lat},
         st.sampled_from(["delta", "delta", "full"]),
         st.sampled_from([None, None, 1, 2, 5]),
         st.sampled_from([None, None, 0, 1, 3]),
         st.sampled_from([1, 2, 3]),
         st.booleans(),
         st.sampled_from([0.0, 0.0, 0.5, 2.0]),
+        st.sampled_from([0.0, 0.0, 0.0, 0.1, 0.2]),
     )
 
 
